@@ -6,6 +6,8 @@ PYTHONPATH.  Line protocol (one request per line on stdin, one answer line on st
   R <clauses>         start_resolution_algorithm on an arbitrary clause list (verdict, list, hint, build)
   V <clause> <clause> resolvable on frozensets
   S <clause> <int>    simplify_clause (clause part)
+  MC <l> <r>          conclusion of merge_clauses (tie with the model's s_merge)
+  QP S|M|T ...        run-time check of the helper specs H_simplify / H_merge / H_trivial of Taut/Glue.v
   QS <N|C|L> <cf>     proof layer of one stage on an arbitrary well-shaped ConjForm tree
   Q <form>            proof layer: run every returned ProofThunk under StatefulInterpreter and compare
                       its conclusion literally with the advertised pattern
@@ -204,9 +206,10 @@ def cmd_P(arg):
     c, cq1, cq2 = TAUT.to_cnf(n)
     out.append('cnf=' + show_cf(c))
     out.append('plc=' + hashlib.md5((show_core(cq1.conc) + '|' + show_core(cq2.conc)).encode()).hexdigest())
-    cls, _, _ = TAUT.to_clauses(c)
+    cls, lq1, lq2 = TAUT.to_clauses(c)
     LAST['clauses'] = len(cls)
     out.append('cls=' + show_clauses(cls))
+    out.append('pll=' + hashlib.md5((show_core(lq1.conc) + '|' + show_core(lq2.conc)).encode()).hexdigest())
     res = TAUT.start_resolution_algorithm(cls)
     out.append(show_resolution(res))
     v = 'N' if res is None else ('F' if res[0] else 'T')
@@ -214,6 +217,10 @@ def cmd_P(arg):
     # the entry point itself, on a fresh copy of the pattern
     res2 = TAUT.prove_tautology(parse_form(arg.split()))
     v2 = 'N' if res2 is None else ('T' if res2[0] else 'F')
+
+    def show_pf(r):
+        return 'N' if r is None else ('T' if r[0] else 'F') + show_core(r[1].conc)
+    out.append('plf=' + hashlib.md5((show_pf(res) + '|' + show_pf(res2)).encode()).hexdigest())
     out.append('entry=' + v2)
     return ' ; '.join(out)
 
@@ -390,8 +397,44 @@ def cmd_QS(arg):
     return 'OK' if not bad else 'BAD ' + ','.join(bad)
 
 
+def cmd_QP(arg):
+    """run-time check of the three helper specs assumed by Taut/Glue.v:
+       QP S <clause> <x>   H_simplify: simplify_clause(cl, x)[1] proves clause(cl) <-> clause(simplified)
+       QP M <l> <r>        H_merge:    merge_clauses(pat l, len l, pat r) proves clause(l) or clause(r) <-> clause(l + r)
+       QP T <clause>       H_trivial:  prove_trivial_clause(cl) proves clause(cl)"""
+    parts = arg.split()
+    it = fresh_interpreter()
+    if parts[0] == 'S':
+        cl, x = parse_clause(parts[1]), int(parts[2])
+        r, pf = TAUT.simplify_clause(list(cl), x)
+        exp = equiv(T.clause_to_pattern(cl), T.clause_to_pattern(r))
+    elif parts[0] == 'M':
+        l, r = parse_clause(parts[1]), parse_clause(parts[2])
+        lp, rp = T.clause_to_pattern(l), T.clause_to_pattern(r)
+        pf = TAUT.merge_clauses(lp, len(l), rp)
+        exp = equiv(_or(lp, rp), T.clause_to_pattern(l + r))
+    else:
+        cl = parse_clause(parts[1])
+        pf = TAUT.prove_trivial_clause(cl)
+        exp = T.clause_to_pattern(cl)
+    try:
+        conc = pf(it).conclusion
+    except Timeout:
+        raise
+    except BaseException as e:  # noqa: BLE001
+        return f'BAD raise:{type(e).__name__}'
+    return 'OK' if same(conc, exp) and same(pf.conc, exp) else 'BAD conc'
+
+
 def handle(line):
     cmd, _, arg = line.partition(' ')
+    if cmd == 'QP':
+        return cmd_QP(arg)
+    if cmd == 'MC':     # conclusion of merge_clauses (not executed), compared with the model's s_merge
+        a, b = arg.split()
+        l, r = parse_clause(a), parse_clause(b)
+        pf = TAUT.merge_clauses(T.clause_to_pattern(l), len(l), T.clause_to_pattern(r))
+        return hashlib.md5(show_core(pf.conc).encode()).hexdigest()
     if cmd == 'QS':
         return cmd_QS(arg)
     if cmd == 'P':
